@@ -227,7 +227,19 @@ def match_known(pid, job, res, known):
         if 'pending_accepted_how' in cl:
             if blame is None:
                 blame = pending_blame(job)
-            if blame(d['what']) not in cl['pending_accepted_how']:
+            if d['kind'] in ('utxo-sbu', 'deposit-sbu'):
+                # a flag on a coin: explained when a transaction that spends this coin was accepted that way
+                if not cl.get('coin_spent_by_blamed'):
+                    return False
+                try:
+                    src, vout = d['what'].rsplit(':', 1)
+                    vout = int(vout.split()[0])
+                except ValueError:
+                    return False
+                spenders = [t for t, ins in job['u'].get('txins', {}).items() if any(op[0] == src and int(op[1]) == vout + 1 for op in ins)]
+                if not any(blame(t) in cl['pending_accepted_how'] for t in spenders):
+                    return False
+            elif blame(d['what']) not in cl['pending_accepted_how']:
                 return False
         if cl.get('stranger_dead'):
             if dead is None:
@@ -579,6 +591,19 @@ PLAN_C06 = dict(
     assume=['a crash is a process crash: the wallet database directory is copied as the OS sees it right after the last commit (LevelDB writes are handed to the OS at commit, not fsynced); power loss is outside the statement',
             'every handler step is one database commit, so a Crash action between any two actions of a history is a crash at every commit boundary; RestartCrash(k) places a crash after the k-th commit of the catch-up'],
 )
+def crash_traceable(h):
+    return not any(s['a'] == 'RemoveStepCrash' for s in h)
+
+
+# code -> spec with crashes: the database of the free-running instance is frozen at an arbitrary instant (also in the middle of
+# a step), Start's catch-up commits are recorded one by one (spec/WalletTrace.tla EvCrash / EvRestartCommit / EvRestarted)
+PLAN_C06['gens'].append(gen('Gen_Pay.cfg', 'MC_Pay.tla', mode='trace', filter=crash_traceable,
+                            quick=[SIM(50, 16, **dict(CR, **P))],
+                            thorough=[SIM(1500, 18, **dict(CR, **P)), SIM(800, 18, **dict(CR, **MS))]))
+PLAN_C06['gens'].append(gen('Gen_Stake.cfg', 'MC_Stake.tla', universe_extra=STAKE_X, mode='trace', filter=crash_traceable,
+                            quick=[SIM(30, 16, **CR)],
+                            thorough=[SIM(1000, 18, **dict(CR, **P))]))
+KINDS['C06'] += ['trace-rejected', 'free-not-quiescent']
 PROPS['C06'] = plan_check(PLAN_C06)
 
 
@@ -655,7 +680,11 @@ PLAN_C09['gens'].append(gen('Gen_Pay.cfg', 'MC_Pay.tla', mode='trace', trace_pen
 # crashes during background import / removal belong to C06 as well
 PLAN_C06['gens'][0]['quick'].append(SIM(60, 16, **dict(LIFE, Crashes='TRUE')))
 PLAN_C06['gens'][0]['thorough'].append(SIM(1500, 18, **dict(LIFE, Crashes='TRUE')))
-KINDS['C06'] += ['wallet-status']
+# steered: the process dies while a removal is queued or between its commits (RemoveStepCrash(k), Crash with a removal pending)
+PLAN_C06['gens'].append(gen('Gen_Pay.cfg', 'MC_Pay.tla',
+                            quick=[dict(SIM(300, 16, **dict(LIFE, Crashes='TRUE', GenWant='"rm-crash"')), sample=30)],
+                            thorough=[dict(SIM(6000, 18, **dict(LIFE, Crashes='TRUE', GenWant='"rm-crash"')), sample=400)]))
+KINDS['C06'] += ['wallet-status', 'removed-residue']   # a removal interrupted by a crash is completed after the restart: nothing of the wallet is left
 
 
 # ---- C12, second sentence: spec/Gap.tla (issue rule, restore scan) ----
